@@ -340,6 +340,9 @@ def run(ctx):
     ch13 = res.clause('C13.h', 'R-PROV', 'the studio keeps no reference to the comparison generators it returns', floor=1)
     _cm13.stateless_methods_clause(res, ch13, 'C13', 'C13.h', st13, ['play'],
                                    'an abandoned run is shut down when its generator is finalised, which needs the caller to hold the only reference')
+    # ---- C13.i the timeout a run is judged by is the configured one: the execution config handed to each equalizer is not rewritten per
+    # category (shared with C19.a)
+    _cm13.import_clauses(ctx, res, 'C19', ['C19.a'], 'C13', 'C13.i', 'R-PROV', 'equalizer arguments derive from this call (no shared object rewritten per category)', floor=4)
     return res
 
 
